@@ -67,6 +67,19 @@ def run(cmd, timeout=1800, cwd=ROOT, env=None, input=None):
     p = subprocess.run(cmd, cwd=cwd, env=e, capture_output=True, text=True, timeout=timeout, **kw)
     return p.returncode, p.stdout, p.stderr
 
+def run_cargo(cmd, **kw):
+    """subprocess.run for cargo with an empty stdin, retried when cargo's own rustc probe fails (observed
+    transiently on this machine under load: 'failed to run `rustc` to learn about target-specific information')"""
+    kw.setdefault('stdin', subprocess.DEVNULL)
+    kw.setdefault('capture_output', True)
+    kw.setdefault('text', True)
+    for attempt in range(4):
+        p = subprocess.run(cmd, **kw)
+        if p.returncode == 0 or 'to learn about target-specific information' not in (p.stderr or ''):
+            return p
+        time.sleep(1 + attempt)
+    return p
+
 def ensure_built(what='all'):
     """(re)build model, extraction, harness from the current /verif and /repo trees.
     Returns (ok, log)."""
